@@ -292,6 +292,12 @@ def run(cx):
             if e and t and e['en'] == t['en'] and find('(call Iterator::enumerate _)', e['en']) is not None and find('(call Iterator::zip (param face_edges) _)', e['pair']) is not None:
                 edge_acc = True
                 roots.setdefault('values', set()).add(m.root)
+            # the same accumulation with the cotangent table fused into the loop: `for (&edge, &angle) in face.iter().zip(angles.iter()) { values[edge] += 1/tan(angle) }`
+            ZZ = '(itervar (call Iterator::zip (field 0 (itervar (call Iterator::zip (param face_edges) (param face_angles)))) (field 1 (itervar (call Iterator::zip (param face_edges) (param face_angles))))))'
+            if match(f'(add _ (div 1.0 (call f64::tan (field 1 {ZZ}))))', val) is not None and \
+                    (match(f'(index _ (field 0 {ZZ}))', tgt) is not None or match(f'(index _ (cast _ (field 0 {ZZ})))', tgt) is not None):
+                edge_acc = cot_ok = True
+                roots.setdefault('values', set()).add(m.root)
             if match('(mul 0.5 _)', val) is not None:
                 half = True
                 roots.setdefault('values', set()).add(m.root)
